@@ -197,6 +197,12 @@ def r_find_file(chk, P, tier):
             elif absolute is False:
                 n_rel += 1
                 ok_rel = ok_rel and joined
+    # the relative branch may open the file inside a closure (iterator adapter over the directories)
+    for cl in P.closures_of(fn):
+        for p in Sym(P, cl).paths():
+            for o in [c for c in p.calls if isinstance(c[1], str) and c[1] == "std::fs::File::open"]:
+                n_rel += 1
+                ok_rel = ok_rel and any(is_call(x, suffix="Path::join") for x in walk_terms(o[2][0]))
     chk.expect(ok_abs and n_abs >= 1, "absolute", "absolute paths are not opened as given")
     chk.expect(ok_rel and n_rel >= 1, "relative", "a relative zone name is opened without joining it to a zoneinfo directory (it would resolve against the current directory)", loc=P.loc(fn))
     dirs = [n for n in P.fns if n.endswith("ZONE_INFO_DIRECTORIES") and "value" in P.fns[n]]
